@@ -183,6 +183,12 @@ def run(ctx, rep, tier):
         else:
             n_plain += 1
             st_acc = v.get("state in self.dfa.accepting_states")
+            has_move = v.get("state[DFTransition.End]")
+            if has_move is True:
+                errh = next((b for k, b in v.items() if k.endswith(".error_handling")), None)
+                rep.check(st_acc is True and errh is True, "C17.d", ESB, "an existing End move is only skipped for an accepting state's error path",
+                          "the state's End move is dropped although the state is not accepting (or the move is not an error path): `try { \"abc\"; } catch { end; }` can no "
+                          "longer reach its handler at end-of-input")
             rep.check(st_acc is not None and rets[0].a == ("DONE" if st_acc else "FAIL"), "C17.d", ESB, f"no end move: DONE iff accepting [{key}]",
                       f"without an End move the state's own acceptance must decide; returns {rets[0].a}")
     if n_taken < 2 or n_plain < 2:
